@@ -15,7 +15,7 @@ BP = alias_field('B', 'p')
 GRID = {
     'N': (-1, 0, 1),
     'B': (True, False),
-    'A': ((), (0,), (0, 1)),
+    'A': ((), (0,), (0, 1), (1, 0, 2)),
     'AB': ((), (True,), (True, False)),
     'S': ('"a"',),
 }
@@ -26,6 +26,7 @@ def _qatoms(with_alias):
         out = []
         for v in env:
             out.append(('bin', '>', ('var', v), num(0)))
+            out.append(('bin', '>', ('index', tf('ys'), ('var', v)), num(0)))  # the variable occurs only as an index
             if with_alias:
                 out.append(('bin', '>', alias_field('A', 'x'), ('var', v)))
         if len(env) == 2:
@@ -39,7 +40,8 @@ def grammar(with_alias=False, quantifiers=True, literals=True):
     batoms = [P, Q, R, X_GT_0, Y_EQ_1]
     if literals:
         batoms += [TRUE, FALSE]
-    doms = [tf('xs'), ('set', (num(0), num(1))), ('range', num(0), num(1), False, False)]
+    doms = [tf('xs'), ('set', (num(0), num(1))), ('range', num(0), num(1), False, False),
+            ('range', num(2), num(0), False, False), ('range', num(1), num(1), True, True)]  # reversed by two; empty by exclusion
     if with_alias:
         batoms += [AP, AX_GT_0, BP]
         doms.append(alias_field('A', 'xs'))
